@@ -282,3 +282,46 @@ B('c05b_compile_binding_helper_returns_type_as_name', ['C05'], 'R05.e',
 B('c05b_compile_binding_helper_colon_after_lookups', ['C05'], 'R05.b',
   (R, _CPP, _BINDING_HELPER.replace("    if op == ':':\n        op = ''\n", "").replace("    converter = build_converter(", "    if op == ':':\n        op = ''\n    converter = build_converter(") + _CPP),
   (R, _LOOP_BODY, _LOOP_CALL))
+
+# ---- fifth batch: the two closures as methods of a private callable class (the arity decision taken once in __init__, or at
+# every call on a stored flag) ------------------------------------------------------------------------------------------------
+_BUILD_DEF = "def build_converter(converter, optional=False, multi=False):\n" + _BUILD
+_CLS_INIT = ("class _SegmentConverter(object):\n"
+             "    def __init__(self, converter, optional=False, multi=False):\n"
+             "        self.converter = converter\n"
+             "        self.optional = optional\n"
+             "        self._convert = self._many if multi else self._one\n\n")
+_CLS_CALL = "    def __call__(self, value):\n        return self._convert(value)\n\n"
+_CLS_MANY = ("    def _many(self, value):\n        if not value and self.optional:\n            return []\n"
+             "        convert = self.converter\n        return [convert(v) for v in value.split('/')[1:]]\n\n")
+_CLS_ONE = ("    def _one(self, value):\n        if not value and self.optional:\n            return None\n"
+            "        return self.converter(value.replace('/', ''))\n\n\n")
+_CLS_BUILD = "def build_converter(converter, optional=False, multi=False):\n    return _SegmentConverter(converter, optional=optional, multi=multi)\n"
+_BUILD_CLASS = _CLS_INIT + _CLS_CALL + _CLS_MANY + _CLS_ONE + _CLS_BUILD
+_CLS_INIT_FLAG = _CLS_INIT.replace("        self._convert = self._many if multi else self._one\n", "        self.multi = multi\n")
+_CLS_CALL_FLAG = "    def __call__(self, value):\n        if self.multi:\n            return self._many(value)\n        return self._one(value)\n\n"
+_BUILD_CLASS_FLAG = _CLS_INIT_FLAG + _CLS_CALL_FLAG + _CLS_MANY + _CLS_ONE + _CLS_BUILD
+
+T('c05t_converter_callable_class', ['C05'], (R, _BUILD_DEF, _BUILD_CLASS))
+T('c05t_converter_class_dispatch_per_call', ['C05'], (R, _BUILD_DEF, _BUILD_CLASS_FLAG))
+T('c05t_converter_class_positional_named_instance', ['C05'],
+  (R, _BUILD_DEF, _BUILD_CLASS.replace("    return _SegmentConverter(converter, optional=optional, multi=multi)\n",
+                                       "    segment_converter = _SegmentConverter(converter, optional, multi)\n    return segment_converter\n")))
+B('c05b_class_selection_inverted', ['C05'], 'R05.e', (R, _BUILD_DEF, _BUILD_CLASS.replace("self._many if multi else self._one", "self._one if multi else self._many")))
+B('c05b_class_optional_marker_lost', ['C05'], 'R05.e', (R, _BUILD_DEF, _BUILD_CLASS.replace("(converter, optional=optional, multi=multi)", "(converter, multi=multi)")))
+B('c05b_class_flags_crossed_positionally', ['C05'], 'R05.e', (R, _BUILD_DEF, _BUILD_CLASS.replace("(converter, optional=optional, multi=multi)", "(converter, multi, optional)")))
+B('c05b_class_converter_applied_twice', ['C05'], 'R05.e',
+  (R, _BUILD_DEF, _BUILD_CLASS.replace("        return self._convert(value)\n", "        return self.converter(self._convert(value))\n")))
+B('c05b_class_optional_flag_consumed', ['C05'], 'R05.e',
+  (R, _BUILD_DEF, _BUILD_CLASS.replace("        if not value and self.optional:\n            return None\n",
+                                       "        if not value and self.optional:\n            self.optional = False\n            return None\n")))
+B('c05b_class_flag_kept_on_the_class', ['C05'], 'R05.e', (R, _BUILD_DEF, _BUILD_CLASS.replace("        self.optional = optional\n", "        _SegmentConverter.optional = optional\n")))
+B('c05b_class_shared_empty_list', ['C05'], 'R05.e',
+  (R, _BUILD_DEF, _BUILD_CLASS.replace("        self.optional = optional\n", "        self.optional = optional\n        self._absent = []\n")
+                              .replace("            return []\n", "            return self._absent\n")))
+B('c05b_class_per_call_dispatch_on_optional', ['C05'], 'R05.e', (R, _BUILD_DEF, _BUILD_CLASS_FLAG.replace("        if self.multi:\n", "        if self.optional:\n")))
+B('c05b_class_per_call_flag_holds_optional', ['C05'], 'R05.e', (R, _BUILD_DEF, _BUILD_CLASS_FLAG.replace("        self.multi = multi\n", "        self.multi = optional\n")))
+B('c05b_class_value_stripped_before_dispatch', ['C05'], 'R05.e',
+  (R, _BUILD_DEF, _BUILD_CLASS.replace("        return self._convert(value)\n", "        value = value.strip('/')\n        return self._convert(value)\n")))
+B('c05b_class_single_guard_wrong_branch', ['C05'], 'R05.e',
+  (R, _BUILD_DEF, _BUILD_CLASS.replace("    def _one(self, value):\n        if not value and self.optional:\n", "    def _one(self, value):\n        if not value or self.optional:\n")))
